@@ -204,3 +204,21 @@ Definition layer_fuel (n : nat) : nat := 4 * n + 8.
     struct-typed field that has to be written): that panic is the handler's, not the peer's *)
 Definition handler_writable (cd : codec) (e : env) (pm : list (bytes * method)) (h : handler) : Prop :=
   forall m args p, In m (map snd pm) -> respond_c cd e [] m (h (m_wire m) args) <> Panic p.
+
+(** the layer with the fuel that always suffices for the message at hand: a function of the bytes
+    alone, as the receiver loops of Model/Receivers.v take it *)
+Definition thrift_layer (cd : codec) (e : env) (pm : list (bytes * method)) (h : handler) (rest : bytes) : res unit :=
+  thrift_layer_of cd (layer_fuel (length rest)) e pm h rest.
+
+(** FSimpleServer's processor argument (Model/ReceiversFraming.v [accept_loop]): a generated
+    processor on one request frame; [Ok true] = serve the next frame.  (An error of the method's
+    processor function is logged by FBaseProcessor.Process and the connection goes on; here every
+    [Err] ends it -- either way the loop's theorem holds, it asks for gracefulness only.) *)
+Definition gen_process (cd : codec) (e : env) (pm : list (bytes * method)) (h : handler) (frame : bytes) : res bool :=
+  do _ <- process_request (thrift_layer cd e pm h) frame; Ok true.
+
+(** what a frame cut out of a byte stream shorter than 2 GiB always is *)
+Definition wf_msgb (f : bytes) : bool :=
+  forallb (fun x => (0 <=? x) && (x <? 256)) f && (zlen f <? 2147483648).
+Definition on_bytes (process : bytes -> res bool) (f : bytes) : res bool :=
+  if wf_msgb f then process f else Err EInvalidData.
